@@ -383,3 +383,415 @@ Example C14_boundary_examples :
   filter_map_collection (fun v => 22 <? v) [[(0, 30); (1, 40)]; [(0, 1)]; []] = [[(0, 30); (1, 40)]] /\
   pluck [[(1, 5)]; [(2, 6)]; []; [(1, 0); (2, 3)]] 1 = [5; 0].
 Proof. repeat split; reflexivity. Qed.
+
+(* ================================================================== *)
+(* Part 2.  Key and value types whose `==` is not reflexive (float NaN)
+   — model C14_ModelNaN.v, lemmas C14_ProofsNaN.v.
+
+   [keq], [veq], [req] are Go's == on the key / value / result-key type.  The
+   only assumption about them is [sub eq]: eq a b = true -> a = b.  A key (value)
+   with eq a a = false is "unreachable": a NaN.  [wfk keq m]: the keys of m are
+   pairwise unequal under keq — an ordinary key occurs once, an unreachable key
+   as often as it was inserted.  A map that a helper returns may hold entries
+   that no look-up reaches, so the statements are about its ENTRIES ([In],
+   [Permutation], [filter]) instead of [lookup].  Every theorem is for ALL such
+   lists = all maps in all iteration orders. *)
+
+From Gogu Require Import C14_ModelNaN C14_ProofsNaN.
+
+(* the assumption has the two intended models: Z with Z.eqb (everything ordinary)
+   and floats with one NaN *)
+Theorem C14_nan_equalities :
+  sub Z.eqb /\ (forall z, Z.eqb z z = true) /\
+  sub fl_eqb /\ fl_eqb NaN NaN = false /\ (forall z, fl_eqb (Num z) (Num z) = true) /\
+  (forall (A : Type) (eq : A -> A -> bool), sub eq ->
+     (forall a b, eq a b = eq b a) /\ (forall a b c, eq a b = true -> eq b c = true -> eq a c = true)).
+Proof.
+  split; [exact sub_Zeqb|]. split; [exact Z.eqb_refl|]. split; [exact fl_sub|]. split; [reflexivity|].
+  split; [intros z; apply Z.eqb_refl|]. intros A eq Hs. split; [now apply sub_sym|now apply sub_trans].
+Qed.
+Print Assumptions C14_nan_equalities.
+
+(* ---- the modelling: an entry under an unreachable key is reached by no look-up,
+   delete or overwrite; an insert under such a key always adds an entry ---- *)
+Theorem C14_nan_key_unreachable : forall (K V : Type) (keq : K -> K -> bool) (m : list (K * V)) k v,
+  sub keq -> keq k k = false ->
+  glookup keq m k = None /\ gdelete keq m k = m /\ gset keq m k v = m ++ [(k, v)] /\
+  (wfk keq m -> wfk keq (m ++ [(k, v)])).
+Proof. exact @nan_key_unreachable. Qed.
+Print Assumptions C14_nan_key_unreachable.
+
+Theorem C14_nan_order_irrelevant : forall (K V : Type) (keq : K -> K -> bool) (m m' : list (K * V)) k,
+  sub keq -> wfk keq m -> Permutation m m' -> wfk keq m' /\ glookup keq m k = glookup keq m' k.
+Proof. intros K V keq m m' k Hs Hwf Hp. split; [eapply wfk_perm; eassumption|now apply glookup_perm]. Qed.
+Print Assumptions C14_nan_order_irrelevant.
+
+(* ---- Keys / Values / MapCollection: one element per ENTRY (an unreachable key is
+   listed once per entry stored under it), the same multiset under every order ---- *)
+Theorem C14_nan_keys_values_once : forall (K V : Type) (kz : K) (vz : V) (fn : V -> V) (m m' : list (K * V)),
+  gkeys kz m = map fst m /\ gvalues vz m = map snd m /\ gmap_collection vz fn m = map (fun kv => fn (snd kv)) m /\
+  (Permutation m m' -> Permutation (gkeys kz m) (gkeys kz m') /\ Permutation (gvalues vz m) (gvalues vz m') /\
+                       Permutation (gmap_collection vz fn m) (gmap_collection vz fn m')).
+Proof.
+  intros K V kz vz fn m m'. unfold gkeys, gvalues, gmap_collection. rewrite !gfill_spec.
+  repeat split; try reflexivity; now apply Permutation_map.
+Qed.
+Print Assumptions C14_nan_keys_values_once.
+
+(* ---- Pick / PickBy / FilterMap: exactly the qualifying entries.  A listed key
+   qualifies an entry when it is EQUAL to its key: an entry under an unreachable
+   key is never picked and never omitted by a key list ---- *)
+Theorem C14_nan_pick_exact : forall (K V : Type) (keq : K -> K -> bool) (vz : V) (m : list (K * V)) ks,
+  sub keq -> wfk keq m ->
+  gpick keq vz m ks = match ks with [] => Err 1 | _ => Ok (filter (gkey_in keq ks) m) end.
+Proof. intros K V keq vz m ks Hs Hwf. now apply gpick_spec. Qed.
+Print Assumptions C14_nan_pick_exact.
+
+Theorem C14_nan_unreachable_key_never_listed : forall (K V : Type) (keq : K -> K -> bool) ks (kv : K * V),
+  sub keq -> keq (fst kv) (fst kv) = false -> gkey_in keq ks kv = false.
+Proof. intros K V keq ks kv Hs Hk. now apply gcontains_unreachable. Qed.
+Print Assumptions C14_nan_unreachable_key_never_listed.
+
+Theorem C14_nan_pick_by_exact : forall (K V : Type) (keq : K -> K -> bool) fn (m : list (K * V)),
+  wfk keq m -> gpick_by keq fn m = filter (gkv_ok fn) m.
+Proof. intros K V keq fn m. apply gpick_by_spec. Qed.
+Print Assumptions C14_nan_pick_by_exact.
+
+Theorem C14_nan_filter_map_exact : forall (K V : Type) (keq : K -> K -> bool) fn (m : list (K * V)),
+  wfk keq m -> gfilter_map keq fn m = filter (gval_ok fn) m.
+Proof. intros K V keq fn m. apply gfilter_map_spec. Qed.
+Print Assumptions C14_nan_filter_map_exact.
+
+(* ---- Omit: exactly the others; Pick and Omit partition the map ---- *)
+Theorem C14_nan_omit_exact : forall (K V : Type) (keq : K -> K -> bool) (m : list (K * V)) ks,
+  sub keq -> wfk keq m -> gomit keq m ks = filter (fun kv => negb (gkey_in keq ks kv)) m.
+Proof. intros K V keq m ks Hs Hwf. now apply gomit_spec. Qed.
+Print Assumptions C14_nan_omit_exact.
+
+Theorem C14_nan_pick_omit_partition : forall (K V : Type) (keq : K -> K -> bool) (vz : V) (m : list (K * V)) ks,
+  sub keq -> wfk keq m -> ks <> [] ->
+  exists r, gpick keq vz m ks = Ok r /\ Permutation (r ++ gomit keq m ks) m /\
+            (forall a b, In a r -> In b (gomit keq m ks) -> keq (fst a) (fst b) = false).
+Proof. exact @nan_pick_omit_partition. Qed.
+Print Assumptions C14_nan_pick_omit_partition.
+
+(* ---- OmitBy.  The clause "OmitBy returns exactly the others; PickBy and OmitBy
+   partition the map":
+
+     forall fn m, wfk keq m ->
+       Permutation (gomit_by_asfound keq fn m) (filter (fun kv => negb (gkv_ok fn kv)) m)
+
+   is FALSE for the code in /repo (delete(collection, k) cannot remove an entry
+   under an unreachable key): known finding KF-C14-omitby-nan.  Proved: what the
+   code returns exactly; that it meets the clause on every map in which no entry
+   under an unreachable key qualifies (_partial); the witness (_refuted); and
+   that the proposed repair fixes/nan-c14/0004 ([gomit_by], not in /repo) meets
+   the clause on all maps. ---- *)
+Theorem C14_nan_omit_by_partial : forall (K V : Type) (keq : K -> K -> bool) fn (m : list (K * V)),
+  sub keq -> wfk keq m ->
+  gomit_by_asfound keq fn m = filter (fun kv => negb (gkv_ok fn kv && keq (fst kv) (fst kv))) m /\
+  ((forall kv, In kv m -> gkv_ok fn kv = true -> keq (fst kv) (fst kv) = true) ->
+   gomit_by_asfound keq fn m = filter (fun kv => negb (gkv_ok fn kv)) m /\
+   Permutation (gpick_by keq fn m ++ gomit_by_asfound keq fn m) m /\
+   (forall a b, In a (gpick_by keq fn m) -> In b (gomit_by_asfound keq fn m) -> keq (fst a) (fst b) = false)).
+Proof. exact @nan_omit_by_asfound_partial. Qed.
+Print Assumptions C14_nan_omit_by_partial.
+
+Theorem C14_nan_omit_by_refuted :
+  exists (fn : fl -> fl -> bool) (m : fmap),
+    wfk fl_eqb m /\
+    ~ Permutation (gomit_by_asfound fl_eqb fn m) (filter (fun kv => negb (gkv_ok fn kv)) m) /\
+    ~ Permutation (gpick_by fl_eqb fn m ++ gomit_by_asfound fl_eqb fn m) m.
+Proof.
+  exists (fun _ _ => true), [(NaN, Num 30)]. split; [cbn; intuition|]. split; intros H.
+  - apply Permutation_length in H. discriminate.
+  - apply Permutation_length in H. discriminate.
+Qed.
+Print Assumptions C14_nan_omit_by_refuted.
+
+Theorem C14_nan_omit_by_repair_exact : forall (K V : Type) (keq : K -> K -> bool) fn (m : list (K * V)),
+  sub keq -> wfk keq m ->
+  Permutation (gomit_by keq fn m) (filter (fun kv => negb (gkv_ok fn kv)) m) /\
+  Permutation (gpick_by keq fn m ++ gomit_by keq fn m) m /\
+  (forall a b, In a (gpick_by keq fn m) -> In b (gomit_by keq fn m) -> keq (fst a) (fst b) = false).
+Proof. exact @nan_pick_by_omit_by_partition. Qed.
+Print Assumptions C14_nan_omit_by_repair_exact.
+
+(* ---- MapValues: the association is preserved, entry by entry ---- *)
+Theorem C14_nan_map_values_assoc : forall (K V R : Type) (keq : K -> K -> bool) (fn : V -> R) (m : list (K * V)),
+  wfk keq m -> gmap_values keq fn m = map (fun kv => (fst kv, fn (snd kv))) m.
+Proof. intros K V R keq fn m. apply gmap_values_spec. Qed.
+Print Assumptions C14_nan_map_values_assoc.
+
+(* ---- MapKeys / Invert / SliceToMap: "the last assignment to a key wins", where
+   only EQUAL keys collide: the result is, as a multiset of entries, [keep_last]
+   of the sequence of assignments — every assignment under an unreachable key
+   leaves its own entry ---- *)
+Theorem C14_nan_map_keys_last_wins : forall (K V R : Type) (req : R -> R -> bool) (fn : K -> V -> R) (m : list (K * V)),
+  sub req -> Permutation (gmap_keys req fn m) (keep_last req (map (fun kv => (fn (fst kv) (snd kv), snd kv)) m)).
+Proof. exact @nan_map_keys_last_wins. Qed.
+Print Assumptions C14_nan_map_keys_last_wins.
+
+(* defining property: every result entry comes from an entry with that image and
+   value; every ordinary image is a key of the result; an entry whose image is
+   unreachable has its own result entry; exact where fn does not collide *)
+Theorem C14_nan_map_keys_assoc : forall (K V R : Type) (req : R -> R -> bool) (fn : K -> V -> R) (m : list (K * V)),
+  sub req ->
+  wfk req (gmap_keys req fn m) /\
+  (forall r v, In (r, v) (gmap_keys req fn m) -> exists k, In (k, v) m /\ fn k v = r) /\
+  (forall k v, In (k, v) m -> req (fn k v) (fn k v) = true -> exists v', In (fn k v, v') (gmap_keys req fn m)) /\
+  (forall k v, In (k, v) m -> req (fn k v) (fn k v) = false -> In (fn k v, v) (gmap_keys req fn m)) /\
+  (forall k v, In (k, v) m -> (forall k' v', In (k', v') m -> req (fn k' v') (fn k v) = true -> v' = v) ->
+               In (fn k v, v) (gmap_keys req fn m)).
+Proof. exact @nan_map_keys_assoc. Qed.
+Print Assumptions C14_nan_map_keys_assoc.
+
+Theorem C14_nan_invert_last_wins : forall (K V : Type) (veq : V -> V -> bool) (m : list (K * V)),
+  sub veq -> Permutation (ginvert veq m) (keep_last veq (map (fun kv => (snd kv, fst kv)) m)).
+Proof. exact @nan_invert_last_wins. Qed.
+Print Assumptions C14_nan_invert_last_wins.
+
+(* Invert maps every value back to a key that held it: sound; every ordinary value
+   is covered; EVERY entry with an unreachable value is inverted on its own
+   (whatever its key, reachable or not); exact for a value held once *)
+Theorem C14_nan_invert_sound : forall (K V : Type) (veq : V -> V -> bool) (m : list (K * V)),
+  sub veq ->
+  wfk veq (ginvert veq m) /\
+  (forall v k, In (v, k) (ginvert veq m) -> In (k, v) m) /\
+  (forall k v, In (k, v) m -> veq v v = true -> exists k', In (v, k') (ginvert veq m) /\ In (k', v) m) /\
+  (forall k v, In (k, v) m -> veq v v = false -> In (v, k) (ginvert veq m)) /\
+  (forall k v, In (k, v) m -> (forall k' v', In (k', v') m -> veq v' v = true -> k' = k) -> In (v, k) (ginvert veq m)).
+Proof. exact @nan_invert_sound. Qed.
+Print Assumptions C14_nan_invert_sound.
+
+Theorem C14_nan_slice_to_map_last_wins : forall (K V : Type) (keq : K -> K -> bool) (s1 : list K) (s2 : list V),
+  sub keq ->
+  (length s1 <> length s2 -> gslice_to_map keq s1 s2 = Panic) /\
+  (length s1 = length s2 ->
+   exists r, gslice_to_map keq s1 s2 = Ok r /\ Permutation r (keep_last keq (combine s1 s2))).
+Proof. exact @nan_slice_to_map_last_wins. Qed.
+Print Assumptions C14_nan_slice_to_map_last_wins.
+
+(* what [keep_last] means, entry by entry (used for the three helpers above) *)
+Theorem C14_nan_last_wins_entries : forall (A B : Type) (eq : A -> A -> bool) (l r : list (A * B)),
+  sub eq -> Permutation r (keep_last eq l) ->
+  wfk eq r /\
+  (forall e, In e r -> In e l) /\
+  (forall e, In e l -> eq (fst e) (fst e) = true -> exists b', In (fst e, b') r) /\
+  (forall e, In e l -> eq (fst e) (fst e) = false -> In e r) /\
+  Permutation (filter (fun e => negb (eq (fst e) (fst e))) r) (filter (fun e => negb (eq (fst e) (fst e))) l) /\
+  (forall e, In e l -> (forall e', In e' l -> eq (fst e') (fst e) = true -> e' = e) -> In e r).
+Proof. exact @nan_last_wins_entries. Qed.
+Print Assumptions C14_nan_last_wins_entries.
+
+(* ---- Find (the code after aa675fa): the qualifying entry with the smallest
+   ORDERED key — [le_k klt k k'] is "k' < k is false"; an entry under an
+   unordered key (k != k) is returned only when no qualifying entry has an ordered
+   key; for every sorter that returns a sorted permutation of lists of ordered keys ---- *)
+Theorem C14_nan_find_smallest_key : forall (K V : Type) (keq klt : K -> K -> bool) (vz : V)
+    (sorter : list K -> list K) (fn : V -> bool) (m : list (K * V)),
+  (forall a, klt a a = false) ->
+  (forall l, (forall x, In x l -> keq x x = true) -> Permutation (sorter l) l /\ StronglySorted (le_k klt) (sorter l)) ->
+  wfk keq m ->
+  (gfind_with keq vz sorter fn m = [] /\ forall k v, In (k, v) m -> fn v = false) \/
+  (exists k v, gfind_with keq vz sorter fn m = [(k, v)] /\ In (k, v) m /\ fn v = true /\
+     ((keq k k = true /\ forall k' v', In (k', v') m -> fn v' = true -> keq k' k' = true -> le_k klt k k') \/
+      (keq k k = false /\ forall k' v', In (k', v') m -> fn v' = true -> keq k' k' = false))).
+Proof. exact @gfind_with_spec. Qed.
+Print Assumptions C14_nan_find_smallest_key.
+
+(* the executable instance (insertion sort by < on floats) meets the hypotheses *)
+Theorem C14_nan_find_fl_smallest_key : forall (fn : fl -> bool) (m : fmap), wfk fl_eqb m ->
+  (ffind fn m = [] /\ forall k v, In (k, v) m -> fn v = false) \/
+  (exists k v, ffind fn m = [(k, v)] /\ In (k, v) m /\ fn v = true /\
+     ((exists z, k = Num z /\ forall z' v', In (Num z', v') m -> fn v' = true -> z <= z') \/
+      (k = NaN /\ forall k' v', In (k', v') m -> fn v' = true -> k' = NaN))).
+Proof.
+  intros fn m Hwf.
+  destruct (gfind_with_spec fl_eqb fl_ltb fl_zero fl_sort fn m) as [H|(k & v & Hr & Hin & Hv & H)].
+  - intros [z|]; cbn; [apply Z.ltb_irrefl|reflexivity].
+  - exact fl_sort_sorted.
+  - exact Hwf.
+  - now left.
+  - right. exists k, v. split; [exact Hr|]. split; [exact Hin|]. split; [exact Hv|].
+    destruct H as [[Hk Hmin]|[Hk Hall]].
+    + left. destruct k as [z|]; [|discriminate]. exists z. split; [reflexivity|].
+      intros z' v' Hin' Hv'. specialize (Hmin (Num z') v' Hin' Hv' (Z.eqb_refl z')). unfold le_k in Hmin. cbn in Hmin.
+      now apply Z.ltb_ge in Hmin.
+    + right. destruct k as [z|]; [cbn in Hk; rewrite Z.eqb_refl in Hk; discriminate|]. split; [reflexivity|].
+      intros k' v' Hin' Hv'. specialize (Hall k' v' Hin' Hv'). destruct k' as [z'|]; [|reflexivity].
+      cbn in Hall. rewrite Z.eqb_refl in Hall. discriminate.
+Qed.
+Print Assumptions C14_nan_find_fl_smallest_key.
+
+(* ---- FindKey / FindByKey: some qualifying entry, any of them under some order ---- *)
+Theorem C14_nan_find_key_some : forall (K V : Type) (kz : K) (fn : V -> bool) (m : list (K * V)),
+  (gfind_key kz fn m = kz /\ forall k v, In (k, v) m -> fn v = false) \/
+  (exists v, In (gfind_key kz fn m, v) m /\ fn v = true).
+Proof. exact @gfind_key_spec. Qed.
+Print Assumptions C14_nan_find_key_some.
+
+Theorem C14_nan_find_by_key_some : forall (K V : Type) (keq : K -> K -> bool) (fn : K -> bool) (m : list (K * V)),
+  (gfind_by_key keq fn m = [] /\ forall k v, In (k, v) m -> fn k = false) \/
+  (exists k v, gfind_by_key keq fn m = [(k, v)] /\ In (k, v) m /\ fn k = true).
+Proof. exact @gfind_by_key_spec. Qed.
+Print Assumptions C14_nan_find_by_key_some.
+
+Theorem C14_nan_find_every_choice_possible : forall (K V : Type) (keq : K -> K -> bool) (kz : K) (m : list (K * V)) k v,
+  In (k, v) m ->
+  (forall fn : V -> bool, fn v = true -> exists m', Permutation m m' /\ gfind_key kz fn m' = k) /\
+  (forall fn : K -> bool, fn k = true -> exists m', Permutation m m' /\ gfind_by_key keq fn m' = [(k, v)]).
+Proof.
+  intros K V keq kz m k v Hin. split; intros fn Hfn.
+  - now apply (gfind_key_any_order kz fn m k v).
+  - now apply gfind_by_key_any_order.
+Qed.
+Print Assumptions C14_nan_find_every_choice_possible.
+
+(* ---- Pluck: the value under the key from each map in which a look-up finds it,
+   in order; nothing for an unreachable key ---- *)
+Theorem C14_nan_pluck_in_order : forall (K V : Type) (keq : K -> K -> bool) (vz : V) (ms : list (list (K * V))) key,
+  sub keq ->
+  gpluck keq vz ms key = flat_map (fun m => match glookup keq m key with Some v => [v] | None => [] end) ms /\
+  (keq key key = false -> gpluck keq vz ms key = []).
+Proof. exact @nan_pluck. Qed.
+Print Assumptions C14_nan_pluck_in_order.
+
+(* ---- MapUnique: a sub-map; the kept values are pairwise unequal; every ordinary
+   value is kept under some key; EVERY entry with an unreachable value (each NaN
+   is distinct from every other value) is kept under its own key ---- *)
+Theorem C14_nan_map_unique_one_per_value : forall (K V : Type) (keq : K -> K -> bool) (veq : V -> V -> bool) (m : list (K * V)),
+  sub veq -> wfk keq m ->
+  wfk keq (gmap_unique keq veq m) /\
+  (forall k v, In (k, v) (gmap_unique keq veq m) -> In (k, v) m) /\
+  wfk veq (map (fun kv => (snd kv, fst kv)) (gmap_unique keq veq m)) /\
+  (forall k v, In (k, v) m -> veq v v = true -> exists k', In (k', v) (gmap_unique keq veq m)) /\
+  (forall k v, In (k, v) m -> veq v v = false -> In (k, v) (gmap_unique keq veq m)).
+Proof. exact @nan_map_unique. Qed.
+Print Assumptions C14_nan_map_unique_one_per_value.
+
+(* ---- MapEvery / MapSome / MapContains (== on the values: a NaN is contained in no map) ---- *)
+Theorem C14_nan_map_every_some_iff : forall (K V : Type) (fn : V -> bool) (m : list (K * V)),
+  (gmap_every fn m = true <-> forall k v, In (k, v) m -> fn v = true) /\
+  (gmap_some fn m = true <-> exists k v, In (k, v) m /\ fn v = true).
+Proof.
+  intros K V fn m. rewrite gmap_every_spec, gmap_some_spec, forallb_forall, existsb_exists. split; split.
+  - intros H k v Hin. apply H. change v with (snd (k, v)). now apply in_map.
+  - intros H v Hin. apply in_map_iff in Hin as ([k v'] & <- & Hin). eauto.
+  - intros (v & Hin & Hv). apply in_map_iff in Hin as ([k v'] & <- & Hin). eauto.
+  - intros (k & v & Hin & Hv). exists v. split; [|exact Hv]. change v with (snd (k, v)). now apply in_map.
+Qed.
+Print Assumptions C14_nan_map_every_some_iff.
+
+Theorem C14_nan_map_contains_iff : forall (K V : Type) (veq : V -> V -> bool) (m : list (K * V)) x,
+  sub veq ->
+  (gmap_contains veq m x = true <-> exists k v, In (k, v) m /\ veq v x = true) /\
+  (veq x x = false -> gmap_contains veq m x = false).
+Proof. exact @nan_map_contains. Qed.
+Print Assumptions C14_nan_map_contains_iff.
+
+(* ---- the collection filters and PartitionMap (the code after 8c13ccc: the maps
+   are not written to) ---- *)
+Theorem C14_nan_filter_collection_spec : forall (K V : Type) (fn : V -> bool) (coll : list (list (K * V))),
+  gfilter_collection fn coll = filter (fun item => existsb fn (map snd item)) coll.
+Proof. exact @gfilter_collection_spec. Qed.
+Print Assumptions C14_nan_filter_collection_spec.
+
+Theorem C14_nan_partition_map_spec : forall (K V : Type) (fn : list (K * V) -> bool) (ms : list (list (K * V))),
+  gpartition_map fn ms =
+  (filter fn (filter (fun m => negb (gis_empty m)) ms),
+   filter (fun m => negb (fn m)) (filter (fun m => negb (gis_empty m)) ms)).
+Proof. exact @gpartition_map_spec. Qed.
+Print Assumptions C14_nan_partition_map_spec.
+
+(* ---- the four loops as they were before d979ad3 / d5dd95e / aa675fa / 8c13ccc
+   (repaired in /repo): under an unreachable key they broke the clauses above ---- *)
+Theorem C14_nan_invert_asfound_refuted :
+  exists m : fmap, wfk fl_eqb m /\
+    ~ (forall v k, In (v, k) (ginvert_asfound fl_eqb fl_eqb fl_zero fl_zero m) -> In (k, v) m).
+Proof.
+  exists [(NaN, Num 30)]. split; [cbn; intuition|]. intros H.
+  specialize (H (Num 0) NaN (or_introl Logic.eq_refl)). destruct H as [H|[]]. discriminate.
+Qed.
+Print Assumptions C14_nan_invert_asfound_refuted.
+
+Theorem C14_nan_pick_by_asfound_refuted :
+  exists (fn : fl -> fl -> bool) (m : fmap), wfk fl_eqb m /\
+    gpick_by_asfound fl_eqb fl_zero fn m <> filter (gkv_ok fn) m.
+Proof. exists (fun _ _ => true), [(NaN, Num 30)]. split; [cbn; intuition|]. vm_compute. discriminate. Qed.
+Print Assumptions C14_nan_pick_by_asfound_refuted.
+
+Theorem C14_nan_find_asfound_refuted :
+  exists m : fmap, wfk fl_eqb m /\
+    gfind_asfound fl_eqb fl_zero fl_zero fl_sort (fun v => fl_ltb (Num 20) v) m = [] /\
+    In (NaN, Num 30) m /\
+    gfind_asfound fl_eqb fl_zero fl_zero fl_sort (fun v => fl_eqb v (Num 0)) m = [(NaN, Num 0)] /\
+    ~ In (NaN, Num 0) m.
+Proof.
+  exists [(NaN, Num 30)]. split; [cbn; intuition|]. split; [reflexivity|]. split; [now left|]. split; [reflexivity|].
+  intros [H|[]]. discriminate.
+Qed.
+Print Assumptions C14_nan_find_asfound_refuted.
+
+Theorem C14_nan_partition_map_asfound_refuted :
+  exists (fn : fmap -> bool) (ms : list fmap),
+    gpartition_map_asfound fl_eqb fn ms
+    <> (filter fn (filter (fun m => negb (gis_empty m)) ms),
+        filter (fun m => negb (fn m)) (filter (fun m => negb (gis_empty m)) ms)).
+Proof. exists (fun m => (length m =? 1)%nat), [[(NaN, Num 30)]]. vm_compute. discriminate. Qed.
+Print Assumptions C14_nan_partition_map_asfound_refuted.
+
+(* ---- conservativity: at a reflexive equality the generic helpers ARE the helpers
+   of C14_Model.v (so Part 1 is the instance K = V = Z of Part 2), including the
+   four repaired loops and the proposed OmitBy on every well-formed map: the
+   theorems of Part 1 are theorems about the code as it is now ---- *)
+Theorem C14_nan_conservative : forall (m : amap) (ms : list amap) ks k fn1 fn2 fnk (p : Z -> bool) s1 s2,
+  (wfk Z.eqb m <-> wf m) /\
+  (forall k', glookup Z.eqb m k' = lookup m k') /\
+  gkeys 0 m = keys_go m /\ gvalues 0 m = values_go m /\ gmap_collection 0 fn1 m = map_collection fn1 m /\
+  gmap_values Z.eqb fn1 m = map_values fn1 m /\ gmap_keys Z.eqb fn2 m = map_keys fn2 m /\
+  gmap_every p m = map_every p m /\ gmap_some p m = map_some p m /\ gmap_contains Z.eqb m k = map_contains m k /\
+  gfind_key 0 p m = find_key p m /\ gfind_by_key Z.eqb fnk m = find_by_key fnk m /\
+  gpluck Z.eqb 0 ms k = pluck ms k /\ gpick Z.eqb 0 m ks = pick m ks /\ gomit Z.eqb m ks = omit m ks /\
+  gslice_to_map Z.eqb s1 s2 = slice_to_map s1 s2 /\ gfilter_map Z.eqb p m = filter_map p m /\
+  gfilter_collection p ms = filter_map_collection p ms.
+Proof.
+  intros. split; [apply wfk_Z|]. split; [intros; apply glookup_Z|]. apply conservative_plain.
+Qed.
+Print Assumptions C14_nan_conservative.
+
+Theorem C14_nan_conservative_repaired : forall (m : amap) (ms : list amap) (sorter : list Z -> list Z) fn2 (p : Z -> bool) fnm,
+  wf m ->
+  gmap_unique Z.eqb Z.eqb m = map_unique m /\
+  ginvert Z.eqb m = invert m /\ gpick_by Z.eqb fn2 m = pick_by fn2 m /\ gomit_by Z.eqb fn2 m = omit_by fn2 m /\
+  gomit_by_asfound Z.eqb fn2 m = omit_by fn2 m /\
+  gfind_with Z.eqb 0 sorter p m = find_with sorter p m /\ gpartition_map fnm ms = partition_map fnm ms.
+Proof.
+  intros m ms sorter fn2 p fnm Hwf.
+  destruct (conservative_repaired m ms sorter fn2 p fnm Hwf) as (H1 & H2 & H3 & H4 & H5 & H6).
+  repeat split; try assumption.
+Qed.
+Print Assumptions C14_nan_conservative_repaired.
+
+(* ---- non-vacuity and the NaN shapes, computed on the float instance ---- *)
+Example C14_nan_examples :
+  let m : fmap := [(Num 1, Num 10); (NaN, Num 30); (Num 2, NaN); (NaN, Num 30); (Num 3, NaN)] in
+  wfk fl_eqb m /\
+  gkeys fl_zero m = [Num 1; NaN; Num 2; NaN; Num 3] /\
+  glookup fl_eqb m NaN = None /\ glookup fl_eqb m (Num 2) = Some NaN /\
+  gpick fl_eqb fl_zero m [NaN; Num 2; Num 7] = Ok [(Num 2, NaN)] /\
+  gomit fl_eqb m [NaN; Num 2; Num 7] = [(Num 1, Num 10); (NaN, Num 30); (NaN, Num 30); (Num 3, NaN)] /\
+  gpick_by fl_eqb (fun k _ => negb (fl_eqb k k)) m = [(NaN, Num 30); (NaN, Num 30)] /\
+  gomit_by fl_eqb (fun k _ => negb (fl_eqb k k)) m = [(Num 1, Num 10); (Num 2, NaN); (Num 3, NaN)] /\
+  gomit_by_asfound fl_eqb (fun k _ => negb (fl_eqb k k)) m = m /\
+  ginvert fl_eqb m = [(Num 10, Num 1); (Num 30, NaN); (NaN, Num 2); (NaN, Num 3)] /\
+  gmap_unique fl_eqb fl_eqb m = [(Num 1, Num 10); (NaN, Num 30); (Num 2, NaN); (Num 3, NaN)] /\
+  gmap_contains fl_eqb m NaN = false /\ gmap_contains fl_eqb m (Num 30) = true /\
+  ffind (fun v => fl_ltb (Num 20) v) m = [(NaN, Num 30)] /\ ffind (fun v => negb (fl_eqb v v)) m = [(Num 2, NaN)] /\
+  gfind_key fl_zero (fun v => fl_ltb (Num 20) v) m = NaN /\
+  gpluck fl_eqb fl_zero [m; [(Num 2, Num 5)]] NaN = [] /\ gpluck fl_eqb fl_zero [m; [(Num 2, Num 5)]] (Num 2) = [NaN; Num 5] /\
+  gslice_to_map fl_eqb [NaN; Num 1; NaN; Num 1] [Num 1; Num 2; Num 3; NaN] = Ok [(NaN, Num 1); (Num 1, NaN); (NaN, Num 3)] /\
+  gmap_keys fl_eqb (fun k v => if fl_eqb k k then NaN else Num 0) m
+    = [(NaN, Num 10); (Num 0, Num 30); (NaN, NaN); (NaN, NaN)] /\
+  gpartition_map (fun m : fmap => (length m =? 1)%nat) [[(NaN, Num 1)]; []; m] = ([[(NaN, Num 1)]], [m]).
+Proof. cbn zeta. split; [wfk_tac|]. repeat split; reflexivity. Qed.
